@@ -1067,6 +1067,8 @@ def stream_float_bounds(ck: Check) -> None:
         objs = ["binCount", "userObj"] + (["zz"] if rng.random() < 0.5 else [])
         ubs = {"userObj": rng.choice([math.inf, 99.5, 1e300]), "zz": rng.choice([math.inf, 7, 0.75])}
         lbs = {"userObj": rng.choice([0.0, 0.5, -3.25]), "zz": rng.choice([0, 0.125])}
+        # bounds are a property of (instance, objective): the same for every record (the statistics reject anything else)
+        ubs = {o: max(ubs[o], lbs[o] + 2.5) for o in ubs}
         rs = []
         for a in range(rng.randint(1, 2)):
             for sd in range(rng.randint(1, 3)):
@@ -1075,7 +1077,7 @@ def stream_float_bounds(ck: Check) -> None:
                 bounds = {"binCount.lowerBound": 1, "binCount.upperBound": 20}
                 for o in objs[1:]:
                     vals[o] = lbs[o] + rng.choice([0, 1, 2.5])
-                    bounds[o + ".lowerBound"], bounds[o + ".upperBound"] = lbs[o], max(ubs[o], vals[o])
+                    bounds[o + ".lowerBound"], bounds[o + ".upperBound"] = lbs[o], ubs[o]
                 tf = rng.randint(5, 100)
                 er = EndResult(f"algo{a}", "inst1", "binCount", "ibf1", 1000 + 17 * sd + a, bins, rng.randint(1, tf), 3, tf, 9,
                                None, rng.choice([None, tf]) if a else tf, None)
